@@ -47,6 +47,9 @@ static u8 c17_pre[C17_MAXPRE + 1];
 static u64 c17_npre;
 static void draw_prefix(void) {
   c17_npre = IN(0, C17_MAXPRE);
+#ifdef C17_NPRE
+  ASSUME(c17_npre == C17_NPRE); c17_npre = C17_NPRE;   /* CBMC slice: one query per prefix length (a constant for the simplifier) */
+#endif
   for (u64 i = 0; i < C17_MAXPRE; ++i) c17_pre[i] = IN_BYTE();
 }
 /* the string is  prefix ++ app[0..napp) */
